@@ -3,22 +3,30 @@
 import json, os, subprocess, sys, time
 ROOT = os.path.dirname(os.path.dirname(os.path.abspath(__file__)))
 # which checks to run per seeded change (default: its own property); extra cross-property pairs
+EXTRA2 = {'C01-m4': ['C01', 'C07'], 'C06-m4': ['C06', 'C07'], 'C02-m3': ['C02', 'C20'], 'C02-m4': ['C02', 'C13'], 'C03-m3': ['C03', 'C08'],
+          'C04-m3': ['C04', 'C01'], 'C04-m4': ['C04', 'C11'], 'C08-m3': ['C08', 'C02'], 'C08-m4': ['C08', 'C13'], 'C10-m3': ['C10', 'C19'],
+          'C13-m3': ['C13', 'C07', 'C14'], 'C14-m3': ['C14', 'C15'], 'C15-m4': ['C15', 'C14'], 'C17-m4': ['C17', 'C06', 'C08'],
+          'C19-m3': ['C19', 'C10']}
 EXTRA = {'C03-m1': ['C10'], 'C06-m2': ['C04'], 'C17-m2': ['C04', 'C17'], 'C16-m1': ['C09', 'C16'], 'C14-m1': ['C14', 'C15'], 'C15-m1': ['C15', 'C14']}
 res = {}
 names = sorted(d for d in os.listdir(os.path.join(ROOT, 'seeded')) if os.path.isdir(os.path.join(ROOT, 'seeded', d)))
-only = sys.argv[1:]
-if only and os.path.exists(os.path.join(ROOT, 'seeded', 'RESULTS.json')):
-    res = json.load(open(os.path.join(ROOT, 'seeded', 'RESULTS.json')))      # partial re-run: keep the other rows
+scratch = '--scratch' in sys.argv
+OUT = 'RESULTS.json'
+if '--out' in sys.argv:
+    i = sys.argv.index('--out'); OUT = sys.argv[i + 1]; del sys.argv[i:i + 2]
+only = [a for a in sys.argv[1:] if a != '--scratch']
+if (only or scratch) and os.path.exists(os.path.join(ROOT, 'seeded', OUT)):
+    res = json.load(open(os.path.join(ROOT, 'seeded', OUT)))      # partial re-run: keep the other rows
 for n in names:
     if only and n not in only:
         continue
     meta = json.load(open(os.path.join(ROOT, 'seeded', n, 'meta.json')))
     if str(meta.get('status', '')).startswith('neutralised'):
         res[n] = dict(status='neutralised'); continue
-    pids = EXTRA.get(n, [meta['property']])
+    pids = EXTRA.get(n) or EXTRA2.get(n) or [meta['property']]
     t0 = time.time()
-    p = subprocess.run([sys.executable, os.path.join(ROOT, 'tools', 'seeded.py'), 'run', n] + pids, text=True, stdout=subprocess.PIPE, stderr=subprocess.STDOUT)
+    p = subprocess.run([sys.executable, os.path.join(ROOT, 'tools', 'seeded.py'), 'run', n] + pids + (['--scratch', f'/tmp/pyrates-verif-seed-{n}'] if scratch else []), text=True, stdout=subprocess.PIPE, stderr=subprocess.STDOUT)
     out = [l for l in p.stdout.splitlines() if n in l]
     res[n] = dict(lines=out, detected_by=[l.split()[1] for l in out if 'DETECTED' in l], wall_s=round(time.time() - t0, 1))
     print(n, res[n]['detected_by'] or out, flush=True)
-    json.dump(res, open(os.path.join(ROOT, 'seeded', 'RESULTS.json'), 'w'), indent=1)
+    json.dump(res, open(os.path.join(ROOT, 'seeded', OUT), 'w'), indent=1)
